@@ -22,7 +22,8 @@ RULE = ("icontract ensure on calculus_addition / _subtraction / _multiplication 
         "('0','0') and is not judged). Inputs: every number 0..9999 x operand 0..9; strings of 1..1300 digits of the classes "
         "random, 99..9, 10..0, 10..0+d, 0/9 runs, chains of exactly c nines/zeros for c = 0..20 and c > 1000. State coverage: "
         "(carry-or-borrow-in, digit, operand, position class in {only, least, inner, most}) tuples of a schoolbook model. "
-        "Non-trivial: the number has >= 2 digits and the operand is >= 2 (>= 1 for add/sub); distinct = hash of (op, number, base).")
+        "Non-trivial: the number has >= 2 digits and the operand is >= 2 (>= 1 for add/sub); distinct = hash of (op, number, base)."
+        " Also: 'limb numbers' (aligned blocks of width 1..20 landing exactly on, below or above 10^b under x2..x9), neighbourhoods of 2^31, 2^32, 2^53, 2^63, 2^64 and 10^9..10^20, and valid calls right after a call with malformed text.")
 
 OPS = ("add", "sub", "mul", "div")
 STATES = {op: set() for op in OPS}
